@@ -327,4 +327,223 @@ def r6(F, R):
     R.floor(2)
 
 
-RULES = [("R6", r6, ["all", "json"]), ("R5", r5, ["all", "junit"]), ("R1", r1, None), ("R2", r2, None), ("R3", r3, None), ("R4", r4, None)]
+# ---- R7: Cucumber JSON — what is recorded per event (deep path table of Json::handle_event) ---------------------------------
+JSON_STEP_STATUS = {("Passed", None): "Passed", ("Skipped", None): "Skipped", ("Failed", "NotFound"): "Undefined",
+                    ("Failed", "AmbiguousMatch"): "Ambiguous", ("Failed", "Panic"): "Failed"}
+
+
+class JsonTable:
+    """Rows of `<Json as Writer>::handle_event` with the writer's own private methods inlined and the element look-up (the
+    method returning `&mut Element`) kept as one opaque call; per row: the shape of the event and what is pushed where."""
+    JS = "writer::json::Json"
+
+    def __init__(self, F):
+        from . import deep as D
+        from .termtypes import Typer, strip_refs
+        self.F, self.D = F, D
+        hs = [b for a, b in roles.trait_impl_methods(F, r"^writer::Writer$", "handle_event") if a == self.JS]
+        if len(hs) != 1:
+            raise Unverifiable(f"Writer::handle_event for Json: {len(hs)}")
+        self.fn = hs[0]
+        self.co = roles.coroutine_of(F, hs[0])
+        own = lambda cb: bool(cb.impl and cb.impl.get("self_adt") == self.JS and not cb.impl.get("trait"))
+        self.lookups = [b for b in F.crate_bodies() if own(b) and (strip_refs(b.locals[0]) or "").startswith("writer::json::Element")]
+        opq = "^(" + "|".join(re.escape(b.name) for b in self.lookups) + ")$" if self.lookups else None
+        self.dp = D.Deep(F, self.co, inline_only=own, opaque=opq, max_paths=6000)
+        self.rows = self.dp.run()
+        if not self.rows or any(p.cut for p in self.rows):
+            raise Unverifiable("Json::handle_event: empty path table or a loop")
+        self.T = Typer(F, self.co, self.dp)
+
+    def shape(self, p):
+        d = {}
+        for a, o in p.conds:
+            if a[0] == "discr" and isinstance(o, str):
+                adt = self.dp.adt_of.get(a, "")
+                if adt.startswith("event::") or adt in ("std::result::Result", "parser::Error"):
+                    d.setdefault(adt.rsplit("::", 1)[-1], o)
+        return d
+
+    def pushes(self, p):
+        """[(list name, list path, value term, effect)] of every Vec::push / insert / extend of the row."""
+        out = []
+        for e in p.effects:
+            if e[0] == "call" and re.search(r"Vec::<.*>::(push|insert|extend|append)$|Extend::extend$", e[1]) and len(e[2]) >= 2:
+                tgt, val = e[2][0], e[2][-1]
+                path = self.T.path(tgt)
+                name = path.rsplit(".", 1)[-1] if path and "." in path else None
+                if name is None:
+                    # look-up written in place: name the list by its index in json::Element
+                    from .termtypes import place_term
+                    pt = place_term(tgt[1]) if isinstance(tgt, tuple) and tgt[0] == "ref" else None
+                    if pt is not None and pt[0] == "field":
+                        ent = self.T.fm.get(("writer::json::Element", pt[2]))
+                        name = ent[0] if ent else None
+                out.append((name, path, val, e))
+        return out
+
+    def field(self, v, adt, name):
+        """Field `name` of an aggregate term of struct `adt`."""
+        a = self.F.adt(adt)
+        if a is None or not self.D.is_variant(v, adt):
+            return None
+        names = [f["name"] for f in a["variants"][0]["fields"]]
+        return v[3][names.index(name)] if name in names and len(v[3]) == len(names) else None
+
+
+def r7(F, R):
+    """Cucumber JSON: per event shape, exactly the matching entry is recorded — a step result goes once into `steps` of the element
+    found for the event's own feature / rule / scenario (type `background` for background steps), with the status the event states
+    (Passed / Skipped / Failed, Undefined for not-found, Ambiguous for an ambiguous match), the step's own keyword / line / text, the
+    failure message iff it failed and the logs collected so far; a hook result goes once into `before` / `after` according to its type;
+    `Started` events record nothing; a parser error becomes one entry of the feature list; the document is written on run-Finished only."""
+    if not any(b.name.startswith("writer::json::") for b in F.crate_bodies()):
+        return
+    D = __import__("rules.deep", fromlist=["x"]) if False else None
+    from . import deep as D
+    J = JsonTable(F)
+    T, co = J.T, J.co
+    seen_step, seen_hook = set(), set()
+    n_started = 0
+    n_quiet_bad = []
+    fin_rows = err_rows = 0
+    for p in J.rows:
+        d = J.shape(p)
+        ps = J.pushes(p)
+        el_pushes = [x for x in ps if x[0] in ("steps", "before", "after")]
+        lvl = d.get("Feature")
+        kind = d.get("Scenario")
+        is_sc = d.get("Cucumber") == "Feature" and (lvl == "Scenario" or (lvl == "Rule" and d.get("Rule") == "Scenario"))
+        lookup = [e for e in p.effects if e[0] == "call" and any(e[1] == b.name for b in J.lookups)]
+        outw = [e for e in p.effects if e[0] == "call" and re.search(r"serde_json::|io::Write::write", e[1])]
+        if d.get("Cucumber") == "Finished":
+            fin_rows += 1
+            ser = [e for e in outw if "serde_json::" in e[1]]
+            wr = [e for e in outw if "Write::write" in e[1]]
+            ok = len(ser) == 1 and "self.features" in T.roots(ser[0][2]) and \
+                (re.search(r"to_writer", ser[0][1]) and "self.output" in T.roots(ser[0][2]) or (len(wr) == 1 and "self.output" in T.roots(wr[0][2]) and
+                                                                                               D.mentions(wr[0][2], lambda x: x[0] == "call" and x[3] == ser[0][4])))
+            R.check(bool(ok) and not ps, "json/document-written-on-finished", co, "run-Finished serialises `features` into `output`, once",
+                    "on run-Finished the JSON writer does not serialise its `features` list into its output exactly once")
+            continue
+        if outw:
+            n_quiet_bad.append(("writes the document", d))
+        if d.get("Result") == "Err":
+            err_rows += 1
+            ok = len(ps) == 1 and ps[0][1] == "self.features" and any(r.startswith("event@Err") for r in T.roots(ps[0][2]))
+            R.check(ok, f"json/parser-error-entry/{d.get('Error')}", co, "a parser error becomes one entry of the feature list, built from the error",
+                    f"a parser error ({d.get('Error')}) is not recorded as exactly one entry of `features` built from that error")
+            continue
+        if not is_sc:
+            if ps or lookup:
+                n_quiet_bad.append(("records something", d))
+            continue
+        ev = None  # path of the scenario event
+        # expected look-up arguments: the event's own feature, rule (rule-level only), scenario
+        def check_lookup(want_ty, inst):
+            if not J.lookups:
+                return True
+            if len(lookup) != 1:
+                return False
+            args = lookup[0][2]
+            roots = [T.roots(a) for a in args]
+            consts = [a[1] for a in args if isinstance(a, tuple) and a[0] == "const" and isinstance(a[1], str)]
+            feat = any(any(r.endswith("@Feature.0") for r in rs) for rs in roots)
+            scen = any(any(re.search(r"@Scenario\.0$", r) for r in rs) for rs in roots)
+            rule_terms = [a for a in args if D.is_variant(a, "std::option::Option")]
+            if lvl == "Rule":
+                rule = len(rule_terms) == 1 and rule_terms[0][2] == "Some" and any(r.endswith("@Rule.0") for r in T.roots(rule_terms[0]))
+            else:
+                rule = len(rule_terms) == 1 and rule_terms[0][2] == "None"
+            return feat and scen and rule and consts == [want_ty]
+        if kind in ("Background", "Step"):
+            sv = d.get("Step")
+            if sv == "Started":
+                n_started += 1
+                R.check(not el_pushes, f"json/nothing-recorded/{lvl}/{kind}::Started", co, "Step::Started records no result", "a Step::Started event records a step / hook result")
+                continue
+            key = (sv, d.get("StepError") if sv == "Failed" else None)
+            want = JSON_STEP_STATUS.get(key)
+            inst = f"json/step/{lvl}/{kind}/{sv}" + (f"/{key[1]}" if key[1] else "")
+            seen_step.add((lvl, kind) + key)
+            if want is None:
+                R.violation(inst, co, f"unexpected step event shape {d}")
+                continue
+            ok = len(el_pushes) == 1 and el_pushes[0][0] == "steps" and len(ps) == 1
+            why = f"{[x[0] for x in ps]} pushes (expected one into `steps`)"
+            if ok:
+                v = el_pushes[0][2]
+                res = J.field(v, "writer::json::Step", "result")
+                st = J.field(res, "writer::json::RunResult", "status") if res is not None else None
+                em = J.field(res, "writer::json::RunResult", "error_message") if res is not None else None
+                ok = st is not None and D.is_variant(st, "writer::json::Status", want)
+                why = f"status is {D.fmt(co, st)[:60]} (expected Status::{want})"
+                if ok:
+                    src = f"@{kind}.0"
+                    nm, ln, kw = (T.roots(J.field(v, "writer::json::Step", f) or ()) for f in ("name", "line", "keyword"))
+                    ok = len(nm) == 1 and all(r.endswith(src + ".value") for r in nm) and len(ln) == 1 and all(r.endswith(src + ".position.line") for r in ln) and \
+                        len(kw) == 1 and all(r.endswith(src + ".keyword") for r in kw)
+                    why = f"name / line / keyword are taken from {sorted(nm)} / {sorted(ln)} / {sorted(kw)} (expected the event's own step: value / position.line / keyword)"
+                if ok:
+                    if sv == "Failed":
+                        ok = D.is_variant(em, "std::option::Option", "Some") and any(re.search(r"@Failed\.3$", r) for r in T.roots(em))
+                        why = "a failed step carries no error message built from the event's error"
+                    else:
+                        ok = D.is_variant(em, "std::option::Option", "None")
+                        why = f"a {sv} step carries an error message"
+                if ok:
+                    emb = J.field(v, "writer::json::Step", "embeddings")
+                    ok = "self.logs" in T.roots(emb)
+                    why = "the logs collected for this step are not attached to it"
+                if ok:
+                    ok = check_lookup("background" if kind == "Background" else "scenario", inst)
+                    why = f"the element is not looked up with the event's own feature / rule / scenario and type `{'background' if kind == 'Background' else 'scenario'}`"
+            R.check(ok, inst, co, f"one json::Step with Status::{want} in the right element", f"Cucumber JSON, {lvl}-level {kind} step {sv}{'/' + key[1] if key[1] else ''}: {why}")
+        elif kind == "Hook":
+            hv = d.get("Hook")
+            if hv == "Started":
+                n_started += 1
+                R.check(not el_pushes, f"json/nothing-recorded/{lvl}/Hook::Started", co, "Hook::Started records no result", "a Hook::Started event records a step / hook result")
+                continue
+            ht = d.get("HookType")
+            inst = f"json/hook/{lvl}/{ht}/{hv}"
+            seen_hook.add((lvl, ht, hv))
+            ok = len(el_pushes) == 1 and len(ps) == 1 and el_pushes[0][0] == (ht or "").lower()
+            why = f"recorded in {[x[0] for x in ps]} (expected once in `{(ht or '?').lower()}`)"
+            if ok:
+                v = el_pushes[0][2]
+                res = J.field(v, "writer::json::HookResult", "result")
+                st = J.field(res, "writer::json::RunResult", "status") if res is not None else None
+                em = J.field(res, "writer::json::RunResult", "error_message") if res is not None else None
+                ok = st is not None and D.is_variant(st, "writer::json::Status", hv)
+                why = f"status is {D.fmt(co, st)[:60]} (expected Status::{hv})"
+                if ok and hv == "Failed":
+                    ok = D.is_variant(em, "std::option::Option", "Some") and any(re.search(r"@Failed\.1$", r) for r in T.roots(em))
+                    why = "a failed hook carries no error message built from the event's panic payload"
+                elif ok:
+                    ok = D.is_variant(em, "std::option::Option", "None")
+                    why = "a passed hook carries an error message"
+                if ok:
+                    ok = "self.logs" in T.roots(J.field(v, "writer::json::HookResult", "embeddings"))
+                    why = "the logs collected for this hook are not attached to it"
+                if ok:
+                    ok = check_lookup("scenario", inst)
+                    why = "the element is not looked up with the event's own feature / rule / scenario and type `scenario`"
+            R.check(ok, inst, co, f"one HookResult with Status::{hv} in `{(ht or '').lower()}`", f"Cucumber JSON, {lvl}-level {ht} hook {hv}: {why}")
+        elif kind == "Log":
+            ok = len(ps) == 1 and ps[0][1] == "self.logs" and any(r.endswith("@Log.0") for r in T.roots(ps[0][2]))
+            R.check(ok, f"json/log-buffered/{lvl}", co, "a Log event's text is appended to `logs`", "a Log event's text is not appended (once) to the writer's `logs` buffer")
+        else:
+            if el_pushes:
+                n_quiet_bad.append(("records a result", d))
+    R.check(not n_quiet_bad, "json/nothing-else-recorded", co, "bracket / Started / Finished events record nothing and write nothing",
+            f"events that carry no step or hook result change the report: {n_quiet_bad[:3]}")
+    want_steps = {(l, k) + key for l in ("Rule", "Scenario") for k in ("Background", "Step") for key in JSON_STEP_STATUS}
+    want_hooks = {(l, t, v) for l in ("Rule", "Scenario") for t in ("Before", "After") for v in ("Passed", "Failed")}
+    R.check(seen_step == want_steps and seen_hook == want_hooks and fin_rows == 1 and err_rows >= 1 and n_started >= 6, "json/table-complete", co,
+            f"{len(seen_step)} step shapes, {len(seen_hook)} hook shapes", f"rows missing from the JSON writer's table: steps {sorted(want_steps - seen_step)[:3]} hooks {sorted(want_hooks - seen_hook)[:3]} "
+            f"(finished rows {fin_rows}, parser-error rows {err_rows}, started rows {n_started})")
+    R.floor(35)
+
+
+RULES = [("R7", r7, ["all", "json"]), ("R6", r6, ["all", "json"]), ("R5", r5, ["all", "junit"]), ("R1", r1, None), ("R2", r2, None), ("R3", r3, None), ("R4", r4, None)]
